@@ -20,6 +20,8 @@ class Parser(StmtParser):
             pass
         if self.cur.k != 'eof':
             self.fail('unexpected trailing input')
+        if st.k in ('spec', 'union'):
+            st.for_update = self.saw_for_update
         return st
 
     def parse_script(self):
